@@ -70,3 +70,29 @@ check("C09", "model_checking",
       "Acyclic families; error *codes* are not compared; macOS/Windows unbound.",
       "TLC exhaustive + simulation of Channels.tla, behaviours replayed through the API with per-step comparison",
       "DESIGN.md 3.5, 6 (C09)")
+check("C14", "model_checking",
+      "SideTables.tla models the per-thread attachment tables of ipc.rs as a machine of frames (take tables, visit "
+      "slots, nested send, serialisation failure, put back, hand to transport). TLC checks NothingRetained, "
+      "OwnAttachments and FailedSendsSilent for every script to nesting depth 1 x 2 slots and simulated scripts to depth "
+      "3 x 3 slots (nested sends to live or dead receivers, failures swallowed or propagated). Each script is executed "
+      "through IpcSender::send by a harness value type whose Serialize impl performs it; compared: result of every "
+      "(nested) send, which message carries which attachment at which position (identity probes), table lengths 0 after "
+      "the call, every attached channel disconnects once the program's handles are dropped, and a follow-up message "
+      "from the same thread carries only its own attachment.",
+      "Scripts are bounded (depth 3, 3 slots); the mutant config SerVariant=early_return (the code before the fix) "
+      "violates NothingRetained in the model and is rejected by the replay.",
+      "TLC model checking of SideTables.tla + replay of every script through the API",
+      "DESIGN.md 3.6, 6 (C14)")
+check("C16", "model_checking",
+      "SideTables.tla's decode machine (attachment lists x reference sequences: in range, out of range, repeated, "
+      "unused) is enumerated by TLC (NoPanic, OnlyAttached, termination); every case becomes a real message whose byte "
+      "stream carries exactly those indices and is decoded on a fresh thread (directly and through a receiver set): "
+      "Ok/Err must match the model, endpoints obtained must be the attachments their indices designate, unused "
+      "attachments must be released (channels disconnect, descriptor count returns to its baseline). A seeded fuzz part "
+      "sends random and mutated encodings (0..4096 bytes, 0..8 attachments) for 12 expected types, and messages that are "
+      "received and dropped undecoded.",
+      "For arbitrary bytes the outcome Ok or Err is not predicted (bincode decides), only panic/abort/foreign endpoint/"
+      "leak are violations; a reference of the wrong kind (sender index naming a receiver) is not distinguished by the "
+      "model; run on the OS build (the in-process transport panics on wrong-kind references by design of its enum).",
+      "TLC model checking of SideTables.tla + replay of every decode case + seeded mutation fuzzing",
+      "DESIGN.md 3.6, 6 (C16)")
